@@ -92,16 +92,23 @@ def lattice_first_steps(chk, tier, rng, seed):
         return
     for n, e in enumerate(res.exports):
         B, nv, nh = e["B"], e["nv"], e["nh"]
-        st = lattice.positive_state(dict(nv=nv, nh=nh, B=B, am=e["am"], ph=e["ph"]))
+        # the same amplitude network as a positive state, as a complex state built from sizes, and as a complex state
+        # built around a user's module: on reference-basis data the amplitude update is the same closed form in all
+        # three, and the phase network does not move
+        typ = ("positive", "complex", "complex-module")[n % 3]
+        pt = dict(nv=nv, nh=nh, B=B, am=e["am"], ph=e["ph"])
+        st = lattice.positive_state(pt) if typ == "positive" else lattice.complex_state(pt, via_module=typ == "complex-module")
         L = [[terms.mpf(gradlib.sigterm(B, t)) for t in row] for row in e["Lam"]]
         N = rng.randint(2, 5)
         data = [rng.randrange(2 ** nv) for _ in range(N)]
         pb = rng.randint(1, N)
         nbs = pb + rng.choice([1, 2])
         lr = rng.choice([0.5, 0.1, 0.01])
-        cfg = dict(type="positive", startEp=1, epochs=1, N=N, posB=pb, negB=nbs, data=data, bases=[], sched=False,
+        cfg = dict(type=typ.split("-")[0], startEp=1, epochs=1, N=N, posB=pb, negB=nbs, data=data,
+                   bases=[] if typ == "positive" else [0] * N, sched=False,
                    entryStop=False, again="no", perms="all", cbs=[{"t": "rec"}], vals=[], vars=[])
         before = [p.detach().clone() for p in st.rbm_am.parameters()]
+        ph_before = [p.detach().clone() for p in st.rbm_ph.parameters()] if typ != "positive" else []
         # only the first batch is exact (later batches start from parameters off the lattice)
         real = trainrun.real_run(cfg, plan={("BE", 1, 0, 1)}, seed=seed + n, k=0, lr=lr, nn_state=st)
         if real["error"] is not None:
@@ -114,10 +121,15 @@ def lattice_first_steps(chk, tier, rng, seed):
         after = [p.detach().clone() for p in st.rbm_am.parameters()]
         delta = torch.cat([(a - b).reshape(-1) for a, b in zip(after, before)]).tolist()
         chk.evaluations += 1
+        if typ != "positive":
+            moved = max(float((a - b).abs().max()) for a, b in zip(st.rbm_ph.parameters(), ph_before))
+            if moved != 0.0 or st.rbm_ph is st.rbm_am:
+                chk.violation("lattice-step:phase-network-moved", dict(point=pt, cfg=cfg, built=typ, moved_by=moved,
+                                                                      same_object=st.rbm_ph is st.rbm_am))
         for q in range(npar):
             want = -mpmath.mpf(lr) * grad[q]
             if abs(mpmath.mpf(delta[q]) - want) > 1e-12 + 1e-10 * abs(want):
-                chk.violation("lattice-step:update", dict(point=dict(nv=nv, nh=nh, B=B, am=e["am"]), cfg=cfg, lr=lr, slot=e["layout"][q],
+                chk.violation("lattice-step:update", dict(point=dict(nv=nv, nh=nh, B=B, am=e["am"]), cfg=cfg, lr=lr, slot=e["layout"][q], built=typ,
                                                           got=delta[q], expected=mpmath.nstr(want, 17), pos_rows=pos, neg_rows=neg))
                 break
         chk.nontriv(("lattice-step", n))
